@@ -84,7 +84,21 @@ def r2(ctx):
             ctx.violation(f"config:load_database:remembered-across-entries:{name}", f"`{name}` survives from one entry to the next: what was reported (or resolved) for one entry suppresses the report for a later one", ld.loc(loop))
     # unknown options
     t = u(pa.node)
-    ctx.soft("if unrecognized:\n        log.warning(" in t or re.search(r"if unrecognized:\s+log\.warning\(", t) is not None, "config:ArgumentParser.parse_args:unrecognized-warned", "unrecognised arguments must be warned about", pa.loc())
+    # table specification: the arguments parse_known_args() hands back as unknown are reported, exactly when there are any
+    from ..spec import atoms as _atoms2, tab as _tab2, vt
+
+    n_un = 0
+    for p in _tab2(pa, unroll=1):
+        at = _atoms2(p)
+        rest = [(k, v) for k, v in at.items() if re.search(r"\.parse_known_args\(.*\)\[1\]$", k)]
+        if not rest:
+            continue
+        n_un += 1
+        k_, v_ = rest[0]
+        warns = [vt(e[2]) for e in p.effects if e[0] == "call" and str(e[1]) in ("log.warning", "log.warn") and len(e) > 2 and k_ in vt(e[2])]
+        ctx.check(len(warns) == (1 if v_ else 0), "config:ArgumentParser.parse_args:unrecognized-warned", f"unrecognised arguments must be reported with a warning that names them (exactly when there are any): {len(warns)} such warning(s) when there are {'some' if v_ else 'none'}", pa.loc())
+    if not n_un:
+        raise AnalysisError("parse_args: no decision on the unrecognised arguments of parse_known_args() found")
     ctx.floor(8)
 
 
